@@ -78,7 +78,7 @@ PRELUDE = ('c9_long = ""; for "_i" from 1 to 8 do { c9_long = c9_long + "abcdefg
            'c9_ties = []; c9_ties_s = []; c9_ties_a = []; for "_i" from 1 to 20 do { c9_ties pushBack 1; c9_ties_s pushBack "a"; c9_ties_a pushBack [1, "x"] }; c9_ties set [7, 0]; c9_ties_a set [3, [0, "y"]]; '
            'c9_hm = createHashMapFromArray [[1, "a"], ["k", [1, 2]], [[1, 2], 3]]; '
            'c9_grp = createGroup west; c9_grp0 = createGroup east; c9_obj = "Car" createVehicle [1, 2, 3]; c9_unit = "Man" createUnit [[0, 0, 0], c9_grp]; '
-           'c9_script = [] spawn { }; c9_n = 0; c9_v = 5; c9_code = { 1 };')
+           'c9_script = [] spawn { }; createMarker ["c9_m", c9_obj]; createMarker ["c9_m2", [3, 4]]; c9_n = 0; c9_v = 5; c9_code = { 1 };')
 FILES = {b'/p/one.sqf': b'1', b'/p/two.sqf': b'1;', b'/p/empty.sqf': b'', b'/p/bom.sqf': b'\xef\xbb\xbf', b'/p/bom2.sqf': b'\xef\xbb', b'/p/ok.sqf': b'c9_v = 6; 7', b'/p/inc.sqf': b'#include "ok.sqf"\n#define X 1\nX'}
 POOL = {
     'SCALAR': ['hf0__', 'hf1__'],
@@ -117,10 +117,12 @@ def right_variant(e):
     """the right operand uses the second set of holes where the left one uses the first, so that both sides vary independently"""
     return e.replace('hf0__', 'hf3__').replace('hf1__', 'hf4__').replace('hf2__', 'hf5__').replace('hb0__', 'hb2__').replace('hb1__', 'hb3__')
 
+# waitUntil waits (forever, by design) for a condition that never yields true: only conditions that do are in the claim
+POOL_OVERRIDE = {('U', 'waituntil', 'CODE'): ['{ true }', '{ c9_n = c9_n + 1; c9_n > 2 }']}
 def combos(sig, tier):
     kind, name, lt, rtp = sig
     if kind == 'N': return [(None, None)]
-    R = list(POOL.get(rtp, []))
+    R = list(POOL_OVERRIDE.get((kind, name, rtp)) or POOL.get(rtp, []))
     if name in FILE_OPS and rtp == 'STRING': R = FILE_STRINGS
     if rtp in ('SCALAR', 'BOOL', 'NaN'): R = R[:1]
     if kind == 'U': return [(None, r) for r in R]
